@@ -60,7 +60,15 @@ pub enum Ev {
     Checkpoint { t: u64 },
     /// the caller of the node's next operation gives up after `after_ms` (drops the future)
     #[serde(rename = "cancel_next")]
-    CancelNext { t: u64, node: u8, after_ms: u64 },
+    CancelNext {
+        t: u64,
+        node: u8,
+        after_ms: u64,
+        /// give up when the call has been left pending this many times instead (an await point
+        /// that is passed without virtual time going by cannot be hit by a timer)
+        #[serde(default)]
+        polls: Option<u32>,
+    },
 }
 
 impl Ev {
@@ -410,8 +418,8 @@ pub fn run_cluster(sc: &Scenario, prop: &str) -> Result<RunResult, String> {
                 }
                 out.fault("bulk_write_armed_to_fail_partway");
             },
-            Ev::CancelNext { node, after_ms, .. } => {
-                cl.shared.borrow_mut().cancel_next.insert(*node, *after_ms);
+            Ev::CancelNext { node, after_ms, polls, .. } => {
+                cl.shared.borrow_mut().cancel_next.insert(*node, (*after_ms, *polls));
                 out.fault("caller_gives_up_after_a_while");
             },
             Ev::Checkpoint { .. } => {
@@ -462,6 +470,9 @@ pub fn run_cluster(sc: &Scenario, prop: &str) -> Result<RunResult, String> {
     let active_end = cl.elapsed_ms();
 
     // ---- constructed quiescence: all faults stop ----
+    // (a give-up that was armed for a node's next operation and never used must not hit the
+    // harness's own probe writes)
+    cl.shared.borrow_mut().cancel_next.clear();
     for (a, b) in held.iter() {
         for ha in [host_name(*a), alt_host_name(*a)] {
             for hb in [host_name(*b), alt_host_name(*b)] {
@@ -915,6 +926,7 @@ pub fn gen_cluster_scenario(rng: &mut rand::rngs::SmallRng, k: &GenKnobs) -> Sce
             storage_scan_latency_max_ms: 0,
             storage_read_faults: if rng.gen_bool(0.25) { (0..rng.gen_range(1..=4)).map(|_| rng.gen_range(1..25)).collect() } else { vec![] },
             blunt_removal: false,
+            removal_faults: vec![],
         })
         .collect();
     let explicit_only = rng.gen_bool(0.5);
@@ -1090,7 +1102,8 @@ pub fn gen_cluster_scenario(rng: &mut rand::rngs::SmallRng, k: &GenKnobs) -> Sce
         for (t, node) in op_times {
             if rng.gen_bool(0.2) {
                 let after_ms = *[0u64, 1, 2, 3, 5, 8, 13, 30, 80, 250].choose(rng).unwrap();
-                events.push(Ev::CancelNext { t: t.saturating_sub(1), node, after_ms });
+                let polls = if rng.gen_bool(0.6) { Some(rng.gen_range(1..=14)) } else { None };
+                events.push(Ev::CancelNext { t: t.saturating_sub(1), node, after_ms, polls });
             }
         }
     }
@@ -1119,7 +1132,7 @@ pub fn gen_cluster_scenario(rng: &mut rand::rngs::SmallRng, k: &GenKnobs) -> Sce
 pub fn gen_burst_scenario(rng: &mut rand::rngs::SmallRng) -> Scenario {
     let n = rng.gen_range(2..=3usize);
     let nodes: Vec<NodeCfg> = (1..=n as u8)
-        .map(|id| NodeCfg { id, dc: "dc0".into(), skew_ms: if rng.gen_bool(0.3) { rng.gen_range(-60_000..60_000) } else { 0 }, storage_faults: vec![], storage_latency_max_ms: rng.gen_range(3..40), storage_scan_latency_max_ms: 0, storage_read_faults: if rng.gen_bool(0.4) { (0..rng.gen_range(1..=5)).map(|_| rng.gen_range(1..30)).collect() } else { vec![] }, blunt_removal: false })
+        .map(|id| NodeCfg { id, dc: "dc0".into(), skew_ms: if rng.gen_bool(0.3) { rng.gen_range(-60_000..60_000) } else { 0 }, storage_faults: vec![], storage_latency_max_ms: rng.gen_range(3..40), storage_scan_latency_max_ms: 0, storage_read_faults: if rng.gen_bool(0.4) { (0..rng.gen_range(1..=5)).map(|_| rng.gen_range(1..30)).collect() } else { vec![] }, blunt_removal: false, removal_faults: vec![] })
         .collect();
     let cfg = ClusterCfg {
         nodes,
@@ -1251,6 +1264,7 @@ pub fn gen_real_scenario(rng: &mut rand::rngs::SmallRng) -> Scenario {
             storage_scan_latency_max_ms: if rng.gen_bool(0.5) { rng.gen_range(5..150) } else { 0 },
             storage_read_faults: if rng.gen_bool(0.25) { (0..rng.gen_range(1..=4)).map(|_| rng.gen_range(1..25)).collect() } else { vec![] },
             blunt_removal: false,
+            removal_faults: vec![],
         })
         .collect();
     let mut jitter_sites = Vec::new();
@@ -1349,7 +1363,7 @@ pub fn gen_real_scenario(rng: &mut rand::rngs::SmallRng) -> Scenario {
 /// "Big join": one node holds more documents in one keyspace than a single fetch carries
 /// (50 000); the others start empty and repair from it.
 pub fn gen_big_join_scenario(rng: &mut rand::rngs::SmallRng) -> Scenario {
-    let nodes: Vec<NodeCfg> = (1..=2u8).map(|id| NodeCfg { id, dc: "dc0".into(), skew_ms: 0, storage_faults: vec![], storage_latency_max_ms: 0, storage_scan_latency_max_ms: 0, storage_read_faults: vec![], blunt_removal: false }).collect();
+    let nodes: Vec<NodeCfg> = (1..=2u8).map(|id| NodeCfg { id, dc: "dc0".into(), skew_ms: 0, storage_faults: vec![], storage_latency_max_ms: 0, storage_scan_latency_max_ms: 0, storage_read_faults: vec![], blunt_removal: false, removal_faults: vec![] }).collect();
     let count = 50_000 + rng.gen_range(1..=40u64);
     let cfg = ClusterCfg {
         nodes,
@@ -1386,6 +1400,8 @@ pub fn gen_hours_scenario(rng: &mut rand::rngs::SmallRng) -> Scenario {
             storage_scan_latency_max_ms: 0,
             storage_read_faults: vec![],
             blunt_removal: rng.gen_bool(0.7),
+            // the first (or the first two) purge passes that have something to remove fail at the store
+            removal_faults: if rng.gen_bool(0.35) { if rng.gen_bool(0.5) { vec![1] } else { vec![1, 2] } } else { vec![] },
         })
         .collect();
     let tick = *[50u64, 100].choose(rng).unwrap();
@@ -1407,7 +1423,9 @@ pub fn gen_hours_scenario(rng: &mut rand::rngs::SmallRng) -> Scenario {
     let nids = rng.gen_range(4..=14u64);
     let levels = ["None", "None", "One", "Quorum", "All"];
     let mut events = Vec::new();
-    let bursts = rng.gen_range(2..=3u64);
+    let bursts = if rng.gen_bool(0.7) { 3u64 } else { 2 };
+    // ids deleted so far (keyspace, id): later bursts write some of them again
+    let mut deleted: Vec<(String, u64)> = Vec::new();
     let mut start = rng.gen_range(0..120_000u64);
     let mut last_end = 0u64;
     for b in 0..bursts {
@@ -1437,7 +1455,20 @@ pub fn gen_hours_scenario(rng: &mut rand::rngs::SmallRng) -> Scenario {
                 idv.sort();
                 idv.dedup();
                 let level = if half == 0 && dark.contains(&node) { "None" } else { *levels.choose(rng).unwrap() };
-                events.push(Ev::Op { t: h0 + rng.gen_range(0..hl), node, spec: OpSpec { kind: kind.to_string(), ks: kss.choose(rng).unwrap().clone(), ids: idv, level: level.to_string(), dup: false, empty: false } });
+                let ks = kss.choose(rng).unwrap().clone();
+                if kind.starts_with("del") {
+                    for i in &idv {
+                        deleted.push((ks.clone(), *i));
+                    }
+                }
+                events.push(Ev::Op { t: h0 + rng.gen_range(0..hl), node, spec: OpSpec { kind: kind.to_string(), ks, ids: idv, level: level.to_string(), dup: false, empty: false } });
+            }
+            // documents deleted in an earlier burst (their tombstones may have been purged by now) are written again
+            if b >= 1 && half == 1 && !deleted.is_empty() && rng.gen_bool(0.6) {
+                for _ in 0..rng.gen_range(1..=4) {
+                    let (ks, id) = deleted.choose(rng).unwrap().clone();
+                    events.push(Ev::Op { t: h0 + rng.gen_range(0..hl), node: *ids.choose(rng).unwrap(), spec: OpSpec { kind: "put".to_string(), ks, ids: vec![id], level: levels.choose(rng).unwrap().to_string(), dup: false, empty: false } });
+                }
             }
         }
         // faults inside the burst (or shortly after it): a held link, an outage with a restart
